@@ -42,6 +42,8 @@ ANN = {
     "list[A]": list[K0], "List[A]": typing.List[K0],
     "Literal[1,2]": Literal[1, 2], "Literal[2,1]": Literal[2, 1],
     "Literal['a',1]": Literal["a", 1], "Literal[1,'a']": Literal[1, "a"],
+    # values that are equal but of different types: typing keeps both, in either order
+    "Literal[0,False]": Literal[0, False], "Literal[False,0]": Literal[False, 0], "Literal[True,1]": Literal[True, 1], "Literal[1,True]": Literal[1, True],
     "Union[A,int]": Union[K0, int], "A|int": K0 | int, "(int,A)": (int, K0),
     "type[A]": type[K0], "'type[A]'": "type[C15_K0]", "Annotated[type[A],'x']": Annotated[type[K0], "x"], "Type[A]": typing.Type[K0],
     "type": type, "'type'": "type", "type[object]": type[object], "type[Any]": type[Any],
@@ -58,13 +60,15 @@ CLASSES_EQ = [
     ["list[A]", "List[A]", "'list[A]'", "'List[A]'"],
     ["Literal[1,2]", "Literal[2,1]", "'Literal[2,1]'"],
     ["Literal['a',1]", "Literal[1,'a']"],
+    ["Literal[0,False]", "Literal[False,0]"],
+    ["Literal[True,1]", "Literal[1,True]"],
     ["Union[A,int]", "A|int", "(int,A)", "'Union[int,A]'"],
     ["type[A]", "'type[A]'", "Annotated[type[A],'x']"],
     ["type", "'type'", "type[object]"],
 ]
 SURROUND_POOL = ["A", "B", "K2", "K3", "object", "int", "str", "Literal[1]", "Literal[2,3]", "Union[B,int]", "list", "list[int]", "NoneType", "Union[A,B]"]
 
-VALUES = [("K0()", K0()), ("K1()", K1()), ("K2()", K2()), ("K3()", K3()), ("None", None), ("1", 1), ("2", 2), ("3", 3), ("'a'", "a"), ("'b'", "b"),
+VALUES = [("0", 0), ("False", False), ("True", True), ("K0()", K0()), ("K1()", K1()), ("K2()", K2()), ("K3()", K3()), ("None", None), ("1", 1), ("2", 2), ("3", 3), ("'a'", "a"), ("'b'", "b"),
           ("[]", []), ("[K0()]", [K0()]), ("[1]", [1]), ("1.5", 1.5), ("K0", K0), ("K3", K3), ("K1", K1), ("int", int), ("list[K0]", list[K0])]
 
 
